@@ -9,7 +9,7 @@ import (
 	"verif/harness/kit"
 )
 
-var outcomes = []string{"na", "na", "na", "ok", "ok", "ok", "ok", "nil", "rej401", "rej403", "rej418", "rej503", "plain", "plainctx", "plaindl", "okro", "okro"}
+var outcomes = []string{"na", "na", "na", "ok", "ok", "ok", "ok", "nil", "rej401", "rej403", "rej418", "rej503", "plain", "plainctx", "plaindl", "okro", "okro", "okempty"}
 
 var authzKinds = []string{"none", "none", "allow", "allow", "deny", "deny409", "deny401"}
 
@@ -179,6 +179,12 @@ func GenStack(t *rapid.T) StackCase {
 	c.Method = rapid.SampledFrom(methods).Draw(t, "method")
 	c.OptOut = c.Decl == "global" && rapid.Bool().Draw(t, "opt-out-sibling")
 	c.HandlerErr = rapid.Bool().Draw(t, "handler-observes-request")
+	c.LateAuthz = rapid.IntRange(0, 3).Draw(t, "authorizer-registered-late") == 0
+	for i := range c.Alts {
+		if !c.Alts[i].Anon && rapid.IntRange(0, 7).Draw(t, "empty-named-entry") == 0 {
+			c.Alts[i].EmptyName = true
+		}
+	}
 	c.Reqs = rapid.SliceOfN(rapid.Custom(func(t *rapid.T) Req {
 		q := Req{Vec: genVec(t, c.Alts)}
 		if rapid.IntRange(0, 1).Draw(t, "damaged") == 1 {
@@ -202,6 +208,15 @@ func ClassifyStack(c StackCase) (bool, []string) {
 	reg := c.reg()
 	nt := false
 	labels := []string{"declared:" + c.Decl}
+	if c.LateAuthz && c.Authz != "none" {
+		labels = append(labels, "authorizer registered after the Context was created")
+	}
+	for _, a := range c.Alts {
+		if a.EmptyName && !a.Anon {
+			labels = append(labels, "requirement object with an entry under the empty name")
+			break
+		}
+	}
 	if len(c.Undef) > 0 {
 		labels = append(labels, "undefined-scheme-referenced")
 	}
